@@ -5,6 +5,7 @@ import (
 	"encoding/json"
 	"fmt"
 	"go/ast"
+	"go/constant"
 	"go/token"
 	"go/types"
 	"os"
@@ -258,13 +259,174 @@ func init() {
 	register(ruleBCE, ruleUnmarshalErr, rulePanicUnmarshal)
 	addProp(&PropSpec{
 		ID:    "C18",
-		Rules: []string{"R-BCE", "R-PANIC-UNMARSHAL", "R-UNMARSHAL-ERR"},
+		Rules: []string{"R-BCE", "R-PANIC-UNMARSHAL", "R-UNMARSHAL-ERR", "R-LAYOUT"},
 		Explanation: "Totality of UnmarshalJSON on hostile input, decided with the Go compiler's own prove pass as the decision procedure for index safety: " +
 			"every bounds check the compiler cannot discharge in a function reachable from the five UnmarshalJSON methods is a violation; explicit panics are enumerated over the call graph; returned errors wrap ErrSQLType. " +
 			"Only the 'hostile input returns an error instead of panicking' clause of C18 is decided.",
-		Decided:     []string{"R-BCE: zero unproven bounds checks reachable from UnmarshalJSON", "R-PANIC-UNMARSHAL: no explicit panic reachable", "R-UNMARSHAL-ERR: errors wrap ErrSQLType; success only after time.Parse succeeded"},
+		Decided:     []string{"R-BCE: zero unproven bounds checks reachable from UnmarshalJSON", "R-PANIC-UNMARSHAL: no explicit panic reachable", "R-UNMARSHAL-ERR: errors wrap ErrSQLType; success only after time.Parse succeeded", "R-LAYOUT: String/MarshalJSON share one layout per type; UnmarshalJSON and the matching ParseTime branch accept it"},
 		NotDecided:  []string{"String/ParseTime/JSON round trips (value level)", "commutation of conversions with the context zone", "nil dereference inside the standard library"},
 		Assumptions: []string{"the compiler's prove pass is sound (it only removes checks it has proven)", "time.Parse does not panic"},
 		Trusted:     append(append([]string{}, baseTrusted...), "cmd/compile prove pass (-d=ssa/check_bce)"),
 	})
 }
+
+// --- R-LAYOUT ------------------------------------------------------------------------------------
+
+// stringConstsReaching: string constants that can reach v (through phis and
+// loads from a literal array).
+func stringConstsReaching(v ssa.Value, seen map[ssa.Value]bool, out map[string]bool) {
+	if v == nil || seen[v] {
+		return
+	}
+	seen[v] = true
+	switch x := v.(type) {
+	case *ssa.Const:
+		if x.Value != nil && x.Value.Kind() == constant.String {
+			out[constant.StringVal(x.Value)] = true
+		}
+	case *ssa.Phi:
+		for _, e := range x.Edges {
+			stringConstsReaching(e, seen, out)
+		}
+	case *ssa.UnOp:
+		if ia, ok := x.X.(*ssa.IndexAddr); ok {
+			stringConstsReaching(ia.X, seen, out)
+		}
+		if a, ok := x.X.(*ssa.Alloc); ok {
+			for _, r := range *a.Referrers() {
+				if st, ok := r.(*ssa.Store); ok && st.Addr == a {
+					stringConstsReaching(st.Val, seen, out)
+				}
+			}
+		}
+	case *ssa.Slice:
+		stringConstsReaching(x.X, seen, out)
+	case *ssa.Alloc:
+		for _, r := range *x.Referrers() {
+			if ia, ok := r.(*ssa.IndexAddr); ok {
+				for _, r2 := range *ia.Referrers() {
+					if st, ok := r2.(*ssa.Store); ok && st.Addr == ia {
+						stringConstsReaching(st.Val, seen, out)
+					}
+				}
+			}
+		}
+	}
+}
+
+func normLayout(l string, stripFraction bool) string {
+	l = strings.ReplaceAll(l, "-07:00", "Z07:00")
+	if stripFraction {
+		l = strings.ReplaceAll(l, ".999999999", "")
+	}
+	return l
+}
+
+var ruleLayout = &Rule{
+	Name: "R-LAYOUT", NeedSSA: true,
+	Doc: "for each of the five datetime types: String() and MarshalJSON() format with the same layout constant; UnmarshalJSON parses with a layout that accepts that output (zone element -07:00 vs Z07:00 normalised); the ParseTime branch that constructs the type uses a layout that accepts the String() output (fractional seconds are accepted by time.Parse after the seconds field)",
+	Run: func(p *Prog) *RuleOut {
+		out := newOut("R-LAYOUT")
+		layoutArg := func(fn *ssa.Function, callee string, idx int) map[string]bool {
+			res := map[string]bool{}
+			if fn == nil {
+				return res
+			}
+			for _, b := range fn.Blocks {
+				for _, ins := range b.Instrs {
+					if c, ok := ins.(*ssa.Call); ok && calleeQualified(&c.Call) == callee && idx < len(c.Call.Args) {
+						stringConstsReaching(c.Call.Args[idx], map[ssa.Value]bool{}, res)
+					}
+				}
+			}
+			return res
+		}
+		// ParseTime: layout → constructed type
+		pt := p.ssaFunc(pkgTypes, "ParseTime")
+		byType := map[string]map[string]bool{}
+		if pt == nil {
+			out.undecided("ParseTime", "-", "", "anchor unresolved")
+		} else {
+			for _, b := range pt.Blocks {
+				for _, ins := range b.Instrs {
+					c, ok := ins.(*ssa.Call)
+					if !ok || calleeQualified(&c.Call) != "time.Parse" {
+						continue
+					}
+					ls := map[string]bool{}
+					stringConstsReaching(c.Call.Args[0], map[ssa.Value]bool{}, ls)
+					errV := extractOf(c, 1)
+					if errV == nil {
+						continue
+					}
+					for _, b2 := range pt.Blocks {
+						if isNil, _ := nilFact(factsAt(b2), errV); !isNil {
+							continue
+						}
+						for _, i2 := range b2.Instrs {
+							c2, ok := i2.(*ssa.Call)
+							if !ok || c2.Call.StaticCallee() == nil || fnPkgPath(c2.Call.StaticCallee()) != pkgTypes {
+								continue
+							}
+							if ptr, ok := c2.Type().(*types.Pointer); ok {
+								if n, ok := ptr.Elem().(*types.Named); ok {
+									if byType[n.Obj().Name()] == nil {
+										byType[n.Obj().Name()] = map[string]bool{}
+									}
+									for l := range ls {
+										byType[n.Obj().Name()][l] = true
+									}
+								}
+							}
+						}
+					}
+				}
+			}
+		}
+		n := 0
+		for _, d := range p.A.DateTimeImpls {
+			name := d.Obj().Name()
+			str := layoutArg(p.ssaFunc(pkgTypes, "*"+name+".String"), "time.Format", 1)
+			mj := layoutArg(p.ssaFunc(pkgTypes, "*"+name+".MarshalJSON"), "time.AppendFormat", 2)
+			uj := layoutArg(p.ssaFunc(pkgTypes, "*"+name+".UnmarshalJSON"), "time.Parse", 0)
+			n++
+			key := name + ": one layout for String and MarshalJSON"
+			if len(str) == 1 && len(mj) == 1 && sortedKeys(str)[0] == sortedKeys(mj)[0] {
+				out.ok(key, "path/types", name, sortedKeys(str)[0])
+			} else {
+				out.viol(key, "path/types", name, fmt.Sprintf("String uses %v, MarshalJSON uses %v: json.Marshal and .string() print different text", sortedKeys(str), sortedKeys(mj)))
+				continue
+			}
+			outL := sortedKeys(str)[0]
+			key = name + ": UnmarshalJSON accepts what MarshalJSON writes"
+			hit := false
+			for u := range uj {
+				if normLayout(u, false) == normLayout(outL, false) {
+					hit = true
+				}
+			}
+			if hit {
+				out.ok(key, "path/types", name, "output "+outL+" ∈ accepted "+strings.Join(sortedKeys(uj), " | "))
+			} else {
+				out.viol(key, "path/types", name, "output layout "+outL+" is not among the layouts UnmarshalJSON parses with ("+strings.Join(sortedKeys(uj), ", ")+")")
+			}
+			key = name + ": ParseTime reads String() back as the same type"
+			hit = false
+			for l := range byType[name] {
+				if normLayout(l, true) == normLayout(outL, true) {
+					hit = true
+				}
+			}
+			if hit {
+				out.ok(key, "path/types", "ParseTime", "a branch constructing "+name+" parses "+normLayout(outL, true))
+			} else {
+				out.viol(key, "path/types", "ParseTime", "no ParseTime branch that constructs "+name+" uses a layout accepting "+outL+" (has "+strings.Join(sortedKeys(byType[name]), ", ")+")")
+			}
+		}
+		out.Counts["datetime_types"] = n
+		out.Floors["datetime_types"] = 5
+		return out
+	},
+}
+
+func init() { register(ruleLayout) }
